@@ -174,6 +174,24 @@ fn merge_branch_seq(branches: impl Iterator<Item = BranchInfo>) -> BranchInfo {
     branch_info
 }
 
+// does a cut occur in term at the level of the control constructs
+// that are transparent to it?
+fn contains_cut(term: &Term) -> bool {
+    let mut stack = vec![term];
+
+    while let Some(term) = stack.pop() {
+        match term {
+            Term::Literal(_, Literal::Atom(atom!("!"))) => return true,
+            Term::Clause(_, atom!(",") | atom!(";") | atom!("->"), terms) if terms.len() == 2 => {
+                stack.extend(terms.iter());
+            }
+            _ => {}
+        }
+    }
+
+    false
+}
+
 fn flatten_into_disjunct(
     build_stack: &mut ChunkedTermVec,
     branch_num: BranchNumber,
@@ -607,18 +625,40 @@ impl VariableClassifier {
                                     false
                                 };
 
+                            // the condition is opaque to cut: a cut inside it
+                            // cuts back to where the condition started, as in \\+,
+                            // not to the clause's cut barrier.
+                            let cut_in_condition = contains_cut(&if_term);
+
                             state_stack.push(TraversalState::Term(then_term));
                             state_stack.push(TraversalState::Cut {
                                 var_num: self.var_num,
                                 is_global: false,
                             });
+
+                            if cut_in_condition {
+                                state_stack.push(TraversalState::ResetGlobalCutVarOverride(
+                                    self.global_cut_var_num_override,
+                                ));
+                            }
+
                             state_stack.push(TraversalState::Term(if_term));
+
+                            if cut_in_condition {
+                                state_stack
+                                    .push(TraversalState::OverrideGlobalCutVar(self.var_num + 1));
+                                state_stack.push(TraversalState::GetCutPoint {
+                                    var_num: self.var_num + 1,
+                                    prev_b: false,
+                                });
+                            }
+
                             state_stack.push(TraversalState::GetCutPoint {
                                 var_num: self.var_num,
                                 prev_b,
                             });
 
-                            self.var_num += 1;
+                            self.var_num += if cut_in_condition { 2 } else { 1 };
                         }
                         Term::Clause(_, atom!("\\+"), mut terms) if terms.len() == 1 => {
                             let not_term = terms.pop().unwrap();
